@@ -505,10 +505,18 @@ def _parse_transf_v33(raw, system, max_bus):
             rate_c = data[2][5]
 
             # CW - Winding I/O code, 1-turn ratio on pu bus base kV, 2: winding V, 3: turn ratio pu on norn wind V
+            # `tap2` is the winding-2 off-nominal ratio in pu of the bus base voltage
+            tap2 = data[3][0]
             if data[0][4] == 2:
                 tap = (data[2][0] / bus_Vn1) / (data[3][0] / bus_Vn2)
+                tap2 = data[3][0] / bus_Vn2
             elif data[0][4] == 3:
-                tap = tap * (Vn1 / bus_Vn1) / (Vn2 / bus_Vn2)
+                tap2 = data[3][0] * (Vn2 / bus_Vn2)
+                tap = tap * (Vn1 / bus_Vn1) / tap2
+            else:
+                tap = tap / tap2 if tap2 != 0.0 else tap
+            if tap2 == 0.0:
+                tap2 = 1.0
 
             # CZ - Z code, 1-system base, 2-winding base, 3-load loss and |z|
             if data[0][5] == 1:
@@ -526,8 +534,10 @@ def _parse_transf_v33(raw, system, max_bus):
                      'bus2': data[0][1],
                      'u': data[0][11],
                      'b': data[0][8],
-                     'r': data[1][0],
-                     'x': data[1][1],
+                     # the equivalent with a single tap on the from side has its
+                     # series impedance referred through the winding-2 ratio
+                     'r': data[1][0] * tap2 ** 2,
+                     'x': data[1][1] * tap2 ** 2,
                      'trans': transf,
                      'tap': tap,
                      'phi': phi,
